@@ -36,6 +36,9 @@ def build(meta):
             sfx = "ipv4" if v == "v4" else "ipv6"
             ops += [sfx + "_slice", "lax_" + sfx + "_slice", "iph_" + v, "iph_" + v + "_lax"]
         lines += ["dec.%s\t%s" % (o, h) for o in ops]
+        # the reader door of the IP headers: where an IP length field (not the end of the data) cuts an extension
+        # header short, its length error has to be the slice decoder's (layer, offset, available bytes, source)
+        lines.append("impl.dec.read_iph\t" + h)
     return Case(lines, meta)
 
 
@@ -91,6 +94,15 @@ def oracle(c):
             continue
         op = line.split("\t", 1)[0]
         lax = op.startswith("dec.l")
+        if op == "impl.dec.read_iph":
+            if o.startswith("slice=") and "|read=" in o:
+                from . import c06
+                s_, r_ = o[6:].split("|read=", 1)
+                if s_.startswith("err(") and r_.startswith("err(") and c06.err_class(s_) == "len":
+                    tmp = []
+                    c06.check_reader(op, s_, r_.replace("!accessor-mismatch", ""), tmp)
+                    out.extend((n, dict(d, op=op)) for n, d in tmp)
+            continue
         if op in IP_DOORS:
             lax = "lax" in op
             f = (fl if lax else fs) or (fs if lax else None)
